@@ -26,6 +26,42 @@ WRONG_KIND = st.one_of(
 )
 
 
+def respellings(k: t.Any) -> t.List[t.Any]:
+    """Other interchange values that parse-from-text scalar types (Decimal, Fraction, paths, dates, ...) map to the same typed value as ``k``."""
+    out: t.List[t.Any] = []
+    if isinstance(k, bool):
+        return out
+    if isinstance(k, int):
+        out += [str(k), f"{k}.0", f"{k}/1", f" {k} "]
+    elif isinstance(k, float):
+        if k == k and abs(k) != float('inf'):
+            out += [repr(k), repr(k) + '0' if '.' in repr(k) and 'e' not in repr(k) else repr(k)]
+            if k == int(k) and abs(k) < 1e15:
+                out += [str(int(k))]
+    elif isinstance(k, str):
+        st_ = k.strip()
+        if st_ and st_.lstrip('+-').replace('.', '', 1).isdigit():
+            out += [k + '0' if '.' in k else k + '.0', '0' + k if k[0].isdigit() else k, ' ' + k, k + ' ', k + 'e0' if 'e' not in k.lower() else k]
+            try:
+                out.append(int(k))
+            except ValueError:
+                pass
+        if '/' in k:
+            (a, _, b) = k.partition('/')
+            if a.strip().lstrip('+-').isdigit() and b.strip().isdigit():
+                out += [f"{int(a) * 2}/{int(b) * 2}"]
+            out += [k.replace('/', '//', 1), k + '/', k.replace('/', '/./', 1)]
+        elif k and all(c.isalnum() or c in '._' for c in k):
+            out += ['./' + k, k + '/', k + '/.']
+        if len(k) == 10 and k[4] == '-' and k[7] == '-':
+            out += [k.replace('-', ''), k + 'T00:00:00', k + ' 00:00:00']
+        if len(k) >= 19 and k[10:11] in ('T', ' '):
+            out += [k[:10] + (' ' if k[10] == 'T' else 'T') + k[11:], k + '.000000' if '.' not in k and '+' not in k and 'Z' not in k else k]
+        if len(k) == 8 and k[2] == ':' and k[5] == ':':
+            out += [k + '.000', 'T' + k, k.replace(':', '')]
+    return [a for a in dict.fromkeys(out) if not (type(a) is type(k) and a == k)]
+
+
 def _rebuild_seq(v: t.Any, items: t.List[t.Any]) -> t.Any:
     if isinstance(v, tuple):
         return tuple(items)
@@ -66,7 +102,7 @@ def mutate(draw: t.Any, v: t.Any, names: t.Sequence[str], depth: int = 0) -> t.A
     if seq:
         ops += ['drop', 'dup', 'append', 'to_str', 'to_map', 'reshape']
     if mp:
-        ops += ['dropkey', 'addkey', 'addkey', 'renamekey', 'to_items', 'reshape', 'badkey', 'inserting-drop']
+        ops += ['dropkey', 'addkey', 'addkey', 'renamekey', 'to_items', 'reshape', 'badkey', 'inserting-drop', 'respell-key']
     if isinstance(v, str):
         ops += ['to_chars', 'to_bytes']
     if isinstance(v, bool):
@@ -117,6 +153,21 @@ def mutate(draw: t.Any, v: t.Any, names: t.Sequence[str], depth: int = 0) -> t.A
         if pairs:
             pairs.pop(draw(st.integers(0, len(pairs) - 1)))
         return collections.defaultdict(draw(st.sampled_from([int, list, str, dict])), pairs)
+    if op == 'respell-key':
+        # a second key that is a different piece of data but (for parse-from-text key types) denotes the same typed key:
+        # the two converted keys collide.  Which entry survives is unspecified; that conversion stays total and the two passes agree is not.
+        pairs = list(v.items())
+        if pairs:
+            (k, x) = pairs[draw(st.integers(0, len(pairs) - 1))]
+            alts = [a for a in respellings(k) if a not in v]
+            if alts:
+                a = draw(st.sampled_from(alts))
+                other = draw(st.one_of(st.just(x), st.sampled_from([y for (_, y) in pairs])))
+                if draw(st.booleans()):
+                    pairs.append((a, other))
+                else:
+                    pairs.insert(0, (a, other))
+        return _rebuild_map(v, pairs)
     if op == 'dropkey':
         pairs = list(v.items())
         if pairs:
